@@ -106,7 +106,8 @@ func runC11Raw(c *c11RawCase) (out c11RawOutcome) {
 		for {
 			conn, err := srv.Accept()
 			if err != nil {
-				if strings.Contains(err.Error(), "EOF") {
+				te, isTemp := err.(interface{ Temporary() bool })
+				if !(isTemp && te.Temporary()) && strings.Contains(err.Error(), "EOF") {
 					return
 				}
 				time.Sleep(100 * time.Millisecond)
